@@ -233,6 +233,9 @@ def handle (s : St) (line : String) : St :=
         if kind == "mh" then some (loadManifest cid k k sr.log.id (jsonHeads sr.log) fetched nI)
         else if kind == "eh" then some (loadEntryHash cid k sr.log.id fetched nI)
         else if kind == "json" then some (loadJSON cid k sr.log.id fetched nI)
+        -- in-memory copies through `NewLog` (entries and, except `cpG`, heads handed over)
+        else if kind == "cpE" || kind == "cpV" then some (newLog sr.log.id cid k sr.log.entries heads)
+        else if kind == "cpG" then some (newLog sr.log.id cid k sr.log.entries [])
         else loadEntries cid k heads fetched nI
       match lg with
       | none => s.diff "load" "panic(empty result)" res
